@@ -694,15 +694,9 @@ def section_index(serif, out):
     the result r is r+1, a raise (or a non-int / negative result) is 0."""
     rows = []
     try:
-        try:
-            from serif.typeutils import slice_length
-        except ImportError:
-            # renamed / moved: the number of elements a slice selects, read off the behaviour of vector slicing
-            from serif import Vector
-
-            def slice_length(sl, n):
-                r = Vector(list(range(n)))[sl] if n else Vector([0])[1:][sl]
-                return len(r)
+        # by name, or (renamed / moved) found by its behaviour, or read off vector slicing
+        from values import slice_length_fn
+        slice_length = slice_length_fn()
         mem = [None, -3, -1, 0, 1, 2, 4]
 
         def enc(x):
